@@ -509,8 +509,11 @@ func (m *writerModel) ruleW4(r *Rep, rule string) {
 			r.Fail(rule, key+":whole", c.Pos(wr.Pos()), how)
 		}
 		switch {
+		case reach[fn] && m.otherCaller(fn, reach) != nil:
+			oc := m.otherCaller(fn, reach)
+			r.Fail(rule, key, c.Pos(wr.Pos()), "the function that writes to the underlying writer is run by the emitting goroutine and is also called from "+c.FnName(oc)+", outside it: a block written from there overtakes the blocks still in the queue, and two goroutines write the destination (added after sixteenth-round seed C12-q)")
 		case reach[fn]:
-			r.Pass(rule, key, c.Pos(wr.Pos()), "in code run by the emitting goroutine")
+			r.Pass(rule, key, c.Pos(wr.Pos()), "in code run by the emitting goroutine and called from nowhere else")
 		case fn == closeFn:
 			isWait := m.isEff("wg.Wait")
 			if _, ok := mustPass(entryLoc(fn), func(x ssa.Instruction) bool { return x == wr }, isWait, nil); ok {
@@ -522,6 +525,86 @@ func (m *writerModel) ruleW4(r *Rep, rule string) {
 			r.Fail(rule, key, c.Pos(wr.Pos()), "the underlying writer is written outside the emitting goroutine: block order and whole-block delivery are no longer guaranteed")
 		}
 	}
+}
+
+// otherCaller: a function outside the emitter's reach that calls fn (or calls a
+// function of the reach set through which fn is reached – any static call from
+// outside into the set, other than the go statement that starts the emitter).
+func (m *writerModel) otherCaller(fn *ssa.Function, reach map[*ssa.Function]bool) *ssa.Function {
+	// the part of the reach set from which fn is reachable
+	leads := map[*ssa.Function]bool{fn: true}
+	for changed := true; changed; {
+		changed = false
+		for f := range reach {
+			if leads[f] {
+				continue
+			}
+			allInstrs(f, func(ins ssa.Instruction) {
+				if cc := callCommon(ins); cc != nil {
+					if g := staticCallee(cc); g != nil && leads[g] && !leads[f] {
+						leads[f] = true
+						changed = true
+					}
+				}
+			})
+		}
+	}
+	var all []*ssa.Function
+	var add func(f *ssa.Function)
+	add = func(f *ssa.Function) {
+		all = append(all, f)
+		for _, a := range f.AnonFuncs {
+			add(a)
+		}
+	}
+	for _, f := range m.fns {
+		add(f)
+	}
+	// a caller counts when it can run: exported, a literal, or referred to by
+	// some instruction of the package (an unexported function nobody mentions
+	// is dead code and changes nothing)
+	live := func(f *ssa.Function) bool {
+		if f.Parent() != nil || f.Object() == nil || f.Object().Exported() {
+			return true
+		}
+		used := false
+		for _, h := range all {
+			if h == f || used {
+				continue
+			}
+			allInstrs(h, func(ins ssa.Instruction) {
+				for _, op := range ins.Operands(nil) {
+					if *op == ssa.Value(f) {
+						used = true
+					}
+				}
+			})
+		}
+		return used
+	}
+	var found *ssa.Function
+	for _, f := range all {
+		if reach[f] || found != nil || !live(f) {
+			continue
+		}
+		allInstrs(f, func(ins ssa.Instruction) {
+			cc := callCommon(ins)
+			if cc == nil {
+				return
+			}
+			g := staticCallee(cc)
+			if g == nil || !leads[g] {
+				return
+			}
+			if _, isGo := ins.(*ssa.Go); isGo && g == m.emitter {
+				return
+			}
+			if found == nil {
+				found = f
+			}
+		})
+	}
+	return found
 }
 
 // wholeTransfer: "" if the call hands its bytes to the destination in one
